@@ -29,7 +29,7 @@ TABLE = [
      "a cropped reference-only frame is not a valid blending background"),
     (("C01", "C05"), "jxl_render::RenderContext::load_frame_header", "reject", "ref_header.height < size.height", "D27",
      "a cropped reference-only frame is not a valid blending background"),
-    (("C01", "C05"), "jxl_render::blend::patch", "calls", "region::Region::downsample_with_shift", "D28",
+    (("C01", "C05"), "jxl_render::blend::patch", "calls", "region::Region::downsample_with_shift #2", "D28",
      "patch targets are clipped against the buffer of an upsampled frame, not against its upsampled region"),
     (("C01",), "jxl_render::features::noise::fill_once", "compare", "source_y < ret:height", "D29",
      "the group below may be a single row high: the row read from it is mirrored"),
@@ -63,6 +63,12 @@ TABLE = [
     (("C10",), "jxl_oxide::aux_box::AuxBoxList::handle_event", "calls", "AuxBoxReader::ensure_raw", "seed-C10g",
      "an uncompressed auxiliary box leaves the Init state at its start: a box without payload gets no data event, and finalize() turns a "
      "reader still in Init into NoData, so its type and (empty) payload would be lost"),
+    (("C06",), "jxl_render::util::image_region_to_frame", "reads", "frame_type", "seed-C06h",
+     "a ReferenceOnly frame is a patch / blending source whatever its save_before_ct bit says (the bit is only defaulted to true when "
+     "absent), and reset_cache keeps its render handle across region changes: it has to be rendered in full"),
+    (("C05",), "jxl_render::blend::blend", "calls", "region::Region::with_size", "seed-C05h",
+     "the new frame's buffer region is clipped to the frame's own width x height: after upsampling the buffer is rounded up to a "
+     "multiple of the factor and the excess columns / rows must not be blended onto the canvas"),
     (("C06",), "jxl_render::modular::compute_modular_region", "calls", "::has_palette", "seed-C06e",
      "any Palette transform forces a full-frame Modular decode: implicit delta entries (negative indices) are predicted from neighbours "
      "across group borders even when nb_deltas = 0 (confirmed by reading Palette::inverse_inner; a seeded change narrowed this to delta palettes)"),
@@ -232,6 +238,12 @@ def run(ctx, pid):
             if kind == "calls":
                 if any(x.endswith(a) or (a in x) for x in have for a in alts):
                     found = True
+                # `name #n`: at least n call sites in the whole family (the repair's call next to a later one of the same callee)
+                for a in alts:
+                    if " #" in a:
+                        nm_, _, cnt_ = a.rpartition(" #")
+                        tot = sum(1 for g in fam for _, t in g.calls() if callee(t) and (callee(t)["fn"].endswith(nm_) or nm_ in callee(t)["fn"]))
+                        found = tot >= int(cnt_)
             elif any(a in have for a in alts):
                 found = True
             elif kind in ("compare", "reject") and any(flip_text(a) in have for a in alts):
